@@ -220,8 +220,7 @@ def findings (attr : Toks) (item : Item) (view : View) : List String :=
   (if F_C09_default item view then ["C09.default"] else []) ++
   (if F_C09_assoc item view then ["C09.assoc"] else []) ++
   (if !traitParamsNodup view then ["C03.dupgeneric"] else []) ++
-  (if F_C03_ltbound item view then ["C03.ltbound"] else []) ++
-  (if item.mode != .fn && item.mode != .trait && item.sourceFns.any (fun f => f.attrs.any isCfg) then ["C18.cfgfn"] else [])
+  (if F_C03_ltbound item view then ["C03.ltbound"] else [])
 
 def evalAll (v : Variant) (attr : Toks) (item : Item) (input : Toks) (m : Outcome) (r : Real) (info : String) : String :=
   match m, r with
